@@ -5,6 +5,7 @@ package main
 
 import (
 	"fmt"
+	"os"
 	"go/token"
 	"go/types"
 	"sort"
@@ -98,6 +99,39 @@ type Gen struct {
 	errs []string
 	sentinelList []sentinel
 	checkOverflow bool
+	freshTerms map[string]bool // terms denoting references / slices allocated by this function
+	dirty      map[string]bool // heap arrays written at an index that is not known to be fresh
+	clean      map[string]bool // from a previous pass: arrays that are never dirty (frame holds trivially)
+}
+
+// markFresh records that a reference or slice value denotes memory allocated by this function.
+func (g *Gen) markFresh(term string) {
+	g.freshTerms[term] = true
+	g.freshTerms["(s-arr "+term+")"] = true
+}
+
+func (g *Gen) isFresh(term string) bool {
+	if g.freshTerms[term] || term == "slice-nil" || term == "(s-arr slice-nil)" {
+		return true
+	}
+	// a field of a fresh object
+	if strings.HasPrefix(term, "(fref ") {
+		inner := term[6:]
+		if i := strings.LastIndex(inner, " "); i > 0 {
+			return g.isFresh(inner[:i])
+		}
+	}
+	return false
+}
+
+// noteWrite records a write to heap array arr at index idx.
+func (g *Gen) noteWrite(arr, idx string) {
+	if !g.isFresh(idx) {
+		if os.Getenv("GOVC_DEBUG") != "" && !g.dirty[arr] {
+			fmt.Fprintf(os.Stderr, "dirty %s: write at %s\n", arr, idx)
+		}
+		g.dirty[arr] = true
+	}
 }
 
 func (w *World) newGen(fn *ssa.Function, con *Contract) *Gen {
@@ -105,7 +139,8 @@ func (w *World) newGen(fn *ssa.Function, con *Contract) *Gen {
 		declared: map[string]bool{}, strLits: map[string]string{}, tags: map[string]int{},
 		oblCount: map[string]int{}, assumed: map[string]bool{}, recSeen: map[string]bool{},
 		fieldIDs: map[string]int{}, heapArrs: map[string]string{}, abstracted: map[string]bool{},
-		inlined: map[string]bool{}, usedStubs: map[string]bool{}, usedContracts: map[string]bool{}}
+		inlined: map[string]bool{}, usedStubs: map[string]bool{}, usedContracts: map[string]bool{},
+		freshTerms: map[string]bool{}, dirty: map[string]bool{}}
 	if fn != nil {
 		g.fnName = w.relName(fn)
 	}
@@ -321,6 +356,8 @@ func (g *Gen) typeInv(term string, t types.Type) string {
 	switch t.Underlying().(type) {
 	case *types.Slice:
 		return fmt.Sprintf("(wfslice %s)", term)
+	case *types.Interface:
+		return fmt.Sprintf("(=> (= (i-tag %s) 0) (= (i-val %s) 0))", term, term)
 	}
 	return "true"
 }
